@@ -32,7 +32,7 @@ func init() {
 			{Name: "optimizer-without-cap", Weight: 1, Faulty: true},
 		},
 		Run:      run,
-		Probes:   []core.FindingProbe{{ID: "C20-F1", Run: ProbeInSituShape}},
+		Probes:   []core.FindingProbe{{ID: "C20-F1", Run: ProbeInSituShape}, {ID: "C20-F2", Run: ProbeDeterminantCost}},
 		StepUnit: "loop iterations counted by the tick seam + objective / constraint callbacks + misuse calls",
 		Rule: "linalg-degenerate: one matrix of a drawn degenerate structure (zero, identity, nilpotent, Jordan block, repeated / clustered eigenvalues, rank one, rank deficient, graded, complex pairs, zero leading column, SPD, random, non-finite entry; n = 0..6, float64 or real64) handed to one of 13 algorithms with drawn options under the step clock; each loop site has a polynomial budget taken from the literature (30 n^2 QR sweeps, 75 n^2 SVD sweeps, 100 Denman-Beavers iterations). optimizer-hostile-environment: 8 optimizers on a separable quadratic whose objective is NaN / NaN-gradient / an error outside (or inside) a ball and whose constraint predicate is a pure function (false everywhere, false at the start only, true in a ball, half space), always with an iteration cap K; budget K+1 per outer loop, 1100 halvings per back-tracking loop. saga-without-cap: saga.Run (four objective types) with its default cap (the largest int) on problems whose iterate becomes stationary (dominating l1 penalty, zero data at the origin, small ordinary problems); the hook is the clock: a hook call after an epoch that did not move the iterate at all means the routine walked past its own stopping rule (no epoch budget is derivable: the rule is relative and a run converging towards 0 legitimately goes on until the iterate underflows; such runs are ended by the hook after 20000 epochs and not judged). optimizer-without-cap: BFGS, Rprop, Newton crit / min and Adam with their default cap on a separable quadratic that is NaN / NaN-gradient / an error everywhere except at the starting point (pure function of x: no step can be accepted, the routine has to give up); the evaluation counter is the clock (budget 400000). caller-misuse: 1..6 inadmissible calls (index outside a view but inside its parent, slice bounds outside, mismatched shapes, invalid permutations, derivative order 3, different numbers of variables, sparse vector / constant vector / matrix constructors handed a position outside the object) on a dense or sparse matrix view; a call that returns normally must not have read or written outside the object, changed a shape or left an unreadable object. Non-trivial = n >= 2 / hostile element present / always. Distinct = (algorithm, options, structure, dimension, outcome) resp. (routine, environment kinds, outcome) resp. (storage, call kind, element type).",
 		Assumptions: []string{
